@@ -5,7 +5,7 @@
    (see also Props/W4C07.v, Props/W4C08.v).  Proofs: Proofs/C07Gen4.v. *)
 From Coq Require Import List ZArith Arith Bool.
 From PV Require Import Base.Index Base.Perm Np.NpZ Np.NpZ2 Np.NpZ3 Np.NpZ3b Gen.GenUtils3b Gen.GenSptensor4 Gen.GenKtensor4
-  Model.Sparse Model.Repr Model.C07Ops Model.C07Req Model.W4Ktensor Model.W4Sptensor Model.C07Gen4 Proofs.C07Gen4.
+  Model.Sparse Model.Repr Model.C07Ops Model.C07Req Model.C07W5 Model.W4Ktensor Model.W4Sptensor Model.C07Gen4 Proofs.C07Gen4.
 Import ListNotations.
 Local Open Scope Z_scope.
 
@@ -17,11 +17,17 @@ Theorem C07_permute_kruskal_generated : forall (self k' : ktz) (order : vec), kt
 Proof. exact gen_kt_permute_c07. Qed.
 Print Assumptions C07_permute_kruskal_generated.
 
-(* request -> generated parse_one_d -> generated ktensor.permute  =  the request-level model *)
+(* request -> generated parse_one_d -> generated ktensor.permute  =  the request-level model (Model/C07W5.v permute_k_req5: integer
+   orders as in Model/C07Req.v permute_k_req, boolean orders read as 1 / 0) *)
 Theorem C07_permute_kruskal_request_generated : forall (self k' : ktz) (x : pyshp), ktensor_permute_req self x = Ok k' ->
-  permute_k_req (to_K self) x = Some (to_K k').
+  permute_k_req5 (to_K self) x = Some (to_K k').
 Proof. exact kt_permute_req_c07. Qed.
 Print Assumptions C07_permute_kruskal_request_generated.
+
+Theorem C07_permute_kruskal_request_generated_int : forall (self k' : ktz) (x : pyshp), bool_order_of x = None ->
+  ktensor_permute_req self x = Ok k' -> permute_k_req (to_K self) x = Some (to_K k').
+Proof. exact kt_permute_req_c07_int. Qed.
+Print Assumptions C07_permute_kruskal_request_generated_int.
 
 (* request -> generated parse_one_d -> generated sptensor.permute  =  the request-level model (tensor with stored entries) *)
 Theorem C07_permute_sparse_request_generated : forall (self t : sptz) (x : pyshp),
@@ -32,6 +38,12 @@ Theorem C07_permute_sparse_request_generated : forall (self t : sptz) (x : pyshp
 Proof. exact sp_permute_req_c07. Qed.
 Print Assumptions C07_permute_sparse_request_generated.
 
+(* N-C07-5 (repaired, /repo 9c8fdd5) over the generated text: boolean orders are refused by the generated sptensor.permute *)
+Theorem C07_permute_sparse_bool_refused_generated : forall (self : sptz) (x : pyshp) (bz : vec), bool_order_of x = Some bz ->
+  sptensor_permute_req self x = Err /\ forall (V : Type) (S : Sparse.sparse V), permute_sp_req S x = None.
+Proof. exact sp_permute_req_bool_c07. Qed.
+Print Assumptions C07_permute_sparse_bool_refused_generated.
+
 Example C07_example_generated_requests :
   let col := SArr (mknd [3; 1] DInt [NFin 2; NFin 0; NFin 1]) in
   sptensor_permute_req (mkspt [[0; 1; 3]; [2; 0; 1]] [5; -7] [3; 2; 4]) col = Ok (mkspt [[3; 0; 1]; [1; 2; 0]] [5; -7] [4; 3; 2]) /\
@@ -39,5 +51,8 @@ Example C07_example_generated_requests :
   sptensor_permute_req (mkspt [[0; 1; 3]; [2; 0; 1]] [5; -7] [3; 2; 4]) (SList [EInt (-1); EInt 0; EInt 1]) = Err /\
   sptensor_permute_req (mkspt [[0; 1; 3]] [5] [3; 2; 4]) (SArr (mknd [3] DFloat [NFin 2; NFin 0; NFin 1])) = Err /\
   ktensor_permute_req (mkkt [2; 3] [[[1; 2]; [3; 4]]; [[5; 6]; [7; 8]; [9; 10]]]) (STuple [EInt 1; EInt 0])
-    = Ok (mkkt [2; 3] [[[5; 6]; [7; 8]; [9; 10]]; [[1; 2]; [3; 4]]]).
+    = Ok (mkkt [2; 3] [[[5; 6]; [7; 8]; [9; 10]]; [[1; 2]; [3; 4]]]) /\
+  ktensor_permute_req (mkkt [2; 3] [[[1; 2]; [3; 4]]; [[5; 6]; [7; 8]; [9; 10]]]) (SArr (mknd [2] DBool [NFin 1; NFin 0]))
+    = Ok (mkkt [2; 3] [[[5; 6]; [7; 8]; [9; 10]]; [[1; 2]; [3; 4]]]) /\
+  sptensor_permute_req (mkspt [[0; 1]; [1; 2]] [5; 6] [2; 3]) (SArr (mknd [2] DBool [NFin 1; NFin 0])) = Err.
 Proof. repeat split; reflexivity. Qed.
